@@ -1276,6 +1276,20 @@ impl Analyzable for TxDef {
             scope = self.best_effort_analyze_circular_dependencies(scope);
         }
 
+        // input names are lower-cased on the way to the IR, where a block is known by its name
+        // alone: two blocks whose names differ in case only (or not at all) would share one
+        // query and be handed the same utxos
+        let mut duplicates = AnalyzeReport::default();
+
+        for (i, input) in self.inputs.iter().enumerate() {
+            let name = input.name.to_lowercase();
+
+            if self.inputs[..i].iter().any(|x| x.name.to_lowercase() == name) {
+                duplicates =
+                    duplicates + AnalyzeReport::from(Error::DuplicateDefinition(input.name.clone()));
+            }
+        }
+
         let final_scope = Rc::new(scope);
 
         let locals = self.locals.analyze(Some(final_scope.clone()));
@@ -1293,6 +1307,7 @@ impl Analyzable for TxDef {
         self.scope = Some(final_scope);
 
         params
+            + duplicates
             + locals
             + inputs
             + outputs
